@@ -102,14 +102,62 @@ Definition pty_bits (t : pty) : Z :=
 Fixpoint total_bits (ps : list pty) : Z :=
   match ps with [] => 0 | t :: r => pty_bits t + total_bits r end.
 
+Definition signed8 (t : pty) (v : Z) : Z :=
+  match t with TI8 => if 128 <=? v then v - 256 else v | _ => v end.
+
 Fixpoint args_of (ps : list pty) (n : Z) : list Z :=
   match ps with
   | [] => []
-  | t :: r =>
-      let sz := 2 ^ pty_bits t in
-      let v := n mod sz in
-      (match t with TI8 => if 128 <=? v then v - 256 else v | _ => v end) :: args_of r (n / sz)
+  | t :: r => let sz := 2 ^ pty_bits t in signed8 t (n mod sz) :: args_of r (n / sz)
   end.
+
+(* The same functions with shifts and masks instead of div and mod (Z division is two orders of
+   magnitude slower in the VM); EncProps.run_f_run / args_of_f_eq prove them equal to the reference
+   definitions above, which are the ones the C03 theorems speak about. *)
+Definition eval_b_f (args : list Z) (b : bexp) : Z :=
+  match b with
+  | BConst v => v
+  | BPar i k => Z.land (Z.shiftr (arg args i) k) 255
+  end.
+
+(* per parameter: type, width in bits, mask -- computed once per method *)
+Definition args_plan (ps : list pty) : list (pty * Z * Z) :=
+  map (fun t => (t, pty_bits t, Z.ones (pty_bits t))) ps.
+
+Fixpoint args_of_p (pl : list (pty * Z * Z)) (n : Z) : list Z :=
+  match pl with
+  | [] => []
+  | (t, b, m) :: r =>
+      let v := signed8 t (Z.land n m) in
+      match r with
+      | [] => [v]
+      | _ => v :: args_of_p r (Z.shiftr n b)
+      end
+  end.
+
+Definition args_of_f (ps : list pty) (n : Z) : list Z := args_of_p (args_plan ps) n.
+
+Definition flags_after_e (e : effect) (args : list Z) (fl : Z) : Z :=
+  match e with
+  | ENone => fl
+  | ERep i => Z.land fl (Z.lxor (arg args i mod 256) 255)
+  | ESep i => Z.lor fl (arg args i mod 256)
+  end.
+
+(* [run] with everything that does not depend on the arguments taken out of the loop *)
+Definition run_core (pan : bool) (kd : option ekind) (bs : list bexp) (e : effect) (args : list Z) (fl : Z) : outcome :=
+  if pan then OPanic
+  else match kd with
+       | None => OBad
+       | Some k => OOk (map (eval_b_f args) bs) (k_written k) (k_adv k) (flags_after_e e args fl)
+       end.
+
+Definition run_f (tk : tracker) (ks : list ekind) (d : desc) (args : list Z) (fl : Z) : outcome :=
+  run_core (panics tk d fl) (find_kind ks (d_kind d)) (d_bytes d) (d_effect d) args fl.
+
+(* every shift amount is non-negative (the translator only produces such descriptors) *)
+Definition wf_desc (d : desc) : bool :=
+  forallb (fun b => match b with BPar _ k => 0 <=? k | BConst _ => true end) (d_bytes d).
 
 (* digests use primitive 63-bit integers; the model itself is evaluated over Z *)
 Local Open Scope uint63_scope.
@@ -131,28 +179,41 @@ Definition mix_outcome (fl : Z) (o : outcome) (h : int) : int :=
 Fixpoint fold_prog (k : nat) (base step : Z) (f : Z -> int -> int) (h : int) : int :=
   match k with
   | O => f base h
-  | S k' => fold_prog k' (base + step * 2 ^ Z.of_nat k') step f (fold_prog k' base step f h)
+  | S k' => fold_prog k' (base + Z.shiftl step (Z.of_nat k')) step f (fold_prog k' base step f h)
   end.
 
 (* a progression: (start, step, k) = 2^k call numbers (start + j*step) mod 2^B *)
 Definition prog := (Z * Z * nat)%type.
 
+(* reference digest: by the div/mod model *)
 Definition prog_digest (tk : tracker) (ks : list ekind) (d : desc) (fl : Z) (p : prog) : int :=
   let '(start, step, k) := p in
   let m := 2 ^ total_bits (d_ptys d) in
   fold_prog k start step (fun n h => mix_outcome fl (run tk ks d (args_of (d_ptys d) (n mod m)) fl) h) (zi 0).
+
+(* the digest actually computed per run *)
+Definition prog_digest_f (tk : tracker) (ks : list ekind) (d : desc) (fl : Z) (p : prog) : int :=
+  let '(start, step, k) := p in
+  let mask := Z.ones (total_bits (d_ptys d)) in
+  let pl := args_plan (d_ptys d) in
+  let pan := panics tk d fl in
+  let kd := find_kind ks (d_kind d) in
+  let bs := d_bytes d in
+  let e := d_effect d in
+  fold_prog k start step (fun n h => mix_outcome fl (run_core pan kd bs e (args_of_p pl (Z.land n mask)) fl) h) (zi 0).
 
 (* a method whose outcome cannot depend on the tracked flags (proved: EncProps.state_indep_run) *)
 Definition state_indep (d : desc) : bool :=
   match d_guard d, d_effect d with GNone, ENone => true | _, _ => false end.
 
 (* digests per flag state (rows) and progression (columns); the four states are computed once when
-   the descriptor is state independent *)
+   the descriptor is state independent.  EncProps.method_digests_spec: for a well-formed descriptor
+   this is  map (fun fl => map (prog_digest tk ks d fl) ps) states. *)
 Definition method_digests (tk : tracker) (ks : list ekind) (d : desc) (states : list Z) (ps : list prog)
   : list (list int) :=
   if state_indep d then
-    let row := map (prog_digest tk ks d 0) ps in map (fun _ => row) states
-  else map (fun fl => map (prog_digest tk ks d fl) ps) states.
+    let row := map (prog_digest_f tk ks d 0) ps in map (fun _ => row) states
+  else map (fun fl => map (prog_digest_f tk ks d fl) ps) states.
 
 Fixpoint find_desc (l : list desc) (name : string) : option desc :=
   match l with
